@@ -5,7 +5,13 @@
  *   K  the same, but the original is kept aside untouched and dumped at the end
  *   R<flags>  go on with json_tokener_parse_ex(serialization of the tree under <flags>)   -> step "R <text hex>"
  *   D<path>=<16hex> set_double   I<path>=<dec> set_int64   U<path>=<dec> set_uint64   B<path>=<0|1> set_boolean
- *   T<path>=<hex|-> set_string_len   A<path>:<jvtext> replace the child (array_put_idx / object_add on the
+ *   T<path>=<hex|-> set_string_len
+ *   Z<path>=<hex|-|~> json_object_set_serializer(n, NULL, copy of the bytes (~ = NULL), deleter): reset + opaque userdata
+ *   W<path>=<hex|-|~> json_object_set_userdata(n, ...) on a node that carries no retained text (json_object.h sends
+ *                     retained-text doubles to set_serializer(NULL): there W addresses nothing)
+ *   Y<path>=<hex>     install json_object_userdata_to_json_string with the bytes, then reset with (NULL, NULL, NULL)
+ *   G<path>=<hex>     on a double: install json_object_double_to_json_string with the bytes as format, then reset
+ *   A<path>:<jvtext> replace the child (array_put_idx / object_add on the
  *   existing key)   X<path> delete the child (array_del_idx / object_del);  <path> = @ (root) or i.j.k (child positions)
  * then a step "tree <typed dump>" (and "aside <typed dump>" after K) precedes the per-flag steps.  Per flag value
  *   <text hex> <reported length> <json_object_equal(orig,reparsed)> <typed dump of reparsed> <re-serialization hex>
@@ -109,6 +115,29 @@ static void strip_color(char *copy, size_t tl)
 	copy[j] = 0;
 }
 
+/* opaque application data: own deleter (jv_dump takes json_object_free_userdata for a retained text), counted */
+static long tags_live = 0;
+static void free_tag(struct json_object *jso, void *userdata)
+{
+	(void)jso;
+	if (userdata) { tags_live--; (free)(userdata); }
+}
+static char *new_tag(const char *hex)
+{
+	size_t n; unsigned char *b; char *t;
+	if (*hex == '~') return NULL;
+	b = unhex(hex, &n);
+	t = (char *)(malloc)(n + 1);
+	memcpy(t, b, n); t[n] = 0;
+	(free)(b);
+	tags_live++;
+	return t;
+}
+static int has_retained_text(struct json_object *n)
+{
+	return n->_userdata && n->_user_delete == json_object_free_userdata;
+}
+
 /* returns 0 when the history has to stop (a step was printed that says why) */
 static int apply_op(char *op, struct json_object **t, struct json_object **aside, int *has_aside, int *nsteps)
 {
@@ -158,12 +187,21 @@ static int apply_op(char *op, struct json_object **t, struct json_object **aside
 		json_object_put(*t);
 		*t = r;
 		return 1; }
-	case 'D': case 'I': case 'U': case 'B': case 'T':
+	case 'D': case 'I': case 'U': case 'B': case 'T': case 'Z': case 'W': case 'Y': case 'G':
 		n = walk(*t, &p, 0, &last, &ok);
 		if (*p != '=') { if ((*nsteps)++) printf(" | "); printf("BADOP"); return 0; }
 		p++;
 		if (!ok) return 1;                       /* the path addresses nothing */
+		if (strchr("ZWYG", op[0]) && !n) return 1;   /* the NULL pointer has no userdata */
 		switch (op[0]) {
+		case 'Z': { char *tag = new_tag(p); json_object_set_serializer(n, NULL, tag, tag ? free_tag : NULL); break; }
+		case 'W': if (!has_retained_text(n)) { char *tag = new_tag(p); json_object_set_userdata(n, tag, tag ? free_tag : NULL); } break;
+		case 'Y': { char *tag = new_tag(p);
+			json_object_set_serializer(n, json_object_userdata_to_json_string, tag, tag ? free_tag : NULL);
+			json_object_set_serializer(n, NULL, NULL, NULL); break; }
+		case 'G': if (json_object_get_type(n) == json_type_double) { char *tag = new_tag(p);
+			json_object_set_serializer(n, json_object_double_to_json_string, tag, tag ? free_tag : NULL);
+			json_object_set_serializer(n, NULL, NULL, NULL); } break;
 		case 'D': { uint64_t bits = strtoull(p, NULL, 16); double d; memcpy(&d, &bits, 8); json_object_set_double(n, d); break; }
 		case 'I': json_object_set_int64(n, (int64_t)strtoll(p, NULL, 10)); break;
 		case 'U': json_object_set_uint64(n, (uint64_t)strtoull(p, NULL, 10)); break;
@@ -264,4 +302,5 @@ void run_case(char *rest)
 	}
 	json_object_put(o);
 	if (xa_live != live0) printf(" | LEAK %ld", xa_live - live0);
+	else if (tags_live != 0) { printf(" | LEAK userdata %ld", tags_live); tags_live = 0; }
 }
